@@ -25,6 +25,13 @@ CFG = "Trace_Payments_C03.cfg"
 
 
 def classify(violated, ev, prev):
+    sig = _classify(violated, ev, prev)
+    if any(x.get("pfu") and x.get("acc") for x in ev.get("rs", [])):
+        sig += "@provider-spelling"
+    return sig
+
+
+def _classify(violated, ev, prev):
     name = (violated or "").split(":")[-1]
     if name == "C03_AtMostOnce":
         return "session-credited-twice"
